@@ -14,6 +14,60 @@ CLAIMS = {
         "technique": "contract-based deductive verification: modular VCs from go/ssa discharged by SMT (LIRA)",
         "design_ref": "DESIGN.md §6 C15",
     },
+    "C06": {
+        "level": "Proof that the emitted string guards reject iff the value violates minLength/maxLength/pattern (characters; byte-length defect recorded as known finding), nil never checked, no panic.",
+        "note": "Leaf contracts only; see DESIGN.md §6 C06.",
+        "technique": "contract-based deductive verification: stage-1 symbolic execution of the emitter, stage-2 meaning of the emitted guards, SMT",
+        "design_ref": "DESIGN.md §6 C06",
+    },
+    "C07": {
+        "level": "Proof per nesting level (emitter depth bounded 1..4, labelled) that the emitted guards reject iff the level's array is non-nil and outside [minItems,maxItems]; indices are the loops' own variables.",
+        "note": "Leaf contracts only; see DESIGN.md §6 C07.",
+        "technique": "contract-based deductive verification: stage-1 symbolic execution of the emitter, stage-2 meaning of the emitted guards, SMT",
+        "design_ref": "DESIGN.md §6 C07",
+    },
+    "C04": {
+        "level": "Proof that the emitted required-guard rejects iff the raw map is non-nil and lacks the key; desc() flags place it before the typed decode.",
+        "note": "Leaf contracts only; see DESIGN.md §6 C04.",
+        "technique": "contract-based deductive verification: stage-1 symbolic execution of the emitter, stage-2 meaning of the emitted guards, SMT",
+        "design_ref": "DESIGN.md §6 C04",
+    },
+    "C09": {
+        "level": "Proof that the emitted default guard assigns iff the key is absent or null, never rejects, never panics.",
+        "note": "Leaf contracts only; see DESIGN.md §6 C09.",
+        "technique": "contract-based deductive verification: stage-1 symbolic execution of the emitter, stage-2 meaning of the emitted guards, SMT",
+        "design_ref": "DESIGN.md §6 C09",
+    },
+    "C03": {
+        "level": "Proof that the emitted null guard rejects iff the element is non-nil at the stated depth (0..4).",
+        "note": "Leaf contracts only; see DESIGN.md §6 C03.",
+        "technique": "contract-based deductive verification: stage-1 symbolic execution of the emitter, stage-2 meaning of the emitted guards, SMT",
+        "design_ref": "DESIGN.md §6 C03",
+    },
+    "C11": {
+        "level": "Proof (anyOf half; branch count 1..4) that the emitted block rejects iff every branch unmarshaler failed.",
+        "note": "Leaf contracts only; see DESIGN.md §6 C11.",
+        "technique": "contract-based deductive verification: stage-1 symbolic execution of the emitter, stage-2 meaning of the emitted guards, SMT",
+        "design_ref": "DESIGN.md §6 C11",
+    },
+    "C19": {
+        "level": "Proof that every validator fragment is panic-free under its nil-guards, never mentions the receiver, leaves indentation balanced.",
+        "note": "Leaf contracts only; see DESIGN.md §6 C19.",
+        "technique": "contract-based deductive verification: stage-1 symbolic execution of the emitter, stage-2 meaning of the emitted guards, SMT",
+        "design_ref": "DESIGN.md §6 C19",
+    },
+    "C01": {
+        "level": "Proof of necessary conditions: every emitted fragment parses; package use matches the import conditions stated in the contracts.",
+        "note": "Leaf contracts only; see DESIGN.md §6 C01.",
+        "technique": "contract-based deductive verification: stage-1 symbolic execution of the emitter, stage-2 meaning of the emitted guards, SMT",
+        "design_ref": "DESIGN.md §6 C01",
+    },
+    "C02": {
+        "level": "Proof of the no-over-rejection halves of the validator posts (spec(x) ==> not rejected) and of bound normalisation.",
+        "note": "Leaf contracts only; see DESIGN.md §6 C02.",
+        "technique": "contract-based deductive verification: stage-1 symbolic execution of the emitter, stage-2 meaning of the emitted guards, SMT",
+        "design_ref": "DESIGN.md §6 C02",
+    },
 }
 
-NOT_APPLICABLE = {p: PENDING for p in ["C01", "C02", "C03", "C04", "C06", "C07", "C08", "C09", "C10", "C11", "C12", "C13", "C14", "C16", "C17", "C18", "C19", "C20"]}
+NOT_APPLICABLE = {p: PENDING for p in ["C08", "C10", "C12", "C13", "C14", "C16", "C17", "C18", "C20"]}
